@@ -75,6 +75,18 @@ impl Watch {
             }
         }
 
+        // C12: the inbound window never holds more than the announced Receive Maximum - in every
+        // mode and state (also for frames that crossed a close request)
+        if self.use_hook {
+            let vs = self.ep.state();
+            if let Some(mx) = vs.publish_recv_max {
+                if vs.publish_recv.len() > mx as usize {
+                    self.flag(&["C12"], "inbound-window-overfull", format!("{what}: {} unanswered inbound QoS>0 publishes {:?}, local Receive Maximum {mx}", vs.publish_recv.len(), vs.publish_recv));
+                    return;
+                }
+            }
+        }
+
         // C19: close after the last packet to flush
         let mut seen_close = false;
         let mut need_close = false;
